@@ -560,9 +560,23 @@ class AsyncPathIO(AbstractPathIO):
 
     @universal_exception
     @with_timeout
-    @_blocking_io
-    def _open(self, path, *args, **kwargs):
-        return path.open(*args, **kwargs)
+    async def _open(self, path, *args, **kwargs):
+        future = asyncio.get_running_loop().run_in_executor(
+            self.executor,
+            functools.partial(path.open, *args, **kwargs),
+        )
+        try:
+            return await asyncio.shield(future)
+        except asyncio.CancelledError:
+            # thread is not stopped by that: file which it opens for nobody
+            # any more (caller is cancelled or gave up) is closed
+            future.add_done_callback(self._close_unclaimed)
+            raise
+
+    @staticmethod
+    def _close_unclaimed(future):
+        if not future.cancelled() and future.exception() is None:
+            future.result().close()
 
     @universal_exception
     @defend_file_methods
@@ -588,9 +602,14 @@ class AsyncPathIO(AbstractPathIO):
     @universal_exception
     @defend_file_methods
     @with_timeout
-    @_blocking_io
-    def close(self, file):
-        return file.close()
+    async def close(self, file):
+        # file is closed also when caller is cancelled (or gives up) before
+        # thread has got to it: job is not taken back then
+        future = asyncio.get_running_loop().run_in_executor(
+            self.executor,
+            file.close,
+        )
+        return await asyncio.shield(future)
 
     @universal_exception
     @with_timeout
